@@ -573,6 +573,13 @@ func (c *Ctx) checkRouteKeys(r *Report) {
 	})
 	r.cond(routeStored, "R2", fnKey(storeFn)+":stores-route", c.pos(storeFn.Pos()), "the handler records the route it is keyed by", "the stored handler does not record the route argument")
 	// callers pass strings.Split(name, "/")
+	nameSources := map[*ssa.Function]map[string]bool{}
+	defer func() {
+		ss, ds := sortedKeys(nameSources[storeFn]), sortedKeys(nameSources[deleteFn])
+		same := len(ss) > 0 && strings.Join(ss, ",") == strings.Join(ds, ",")
+		r.cond(same, "R2", "handler-map:store-and-delete-split-the-same-resolved-name", c.pos(deleteFn.Pos()), "both sides split the name resolved the same way ("+strings.Join(ss, ", ")+")",
+			"subscribe stores the handler under the name resolved from {"+strings.Join(ss, ", ")+"} but unsubscribe deletes under the name from {"+strings.Join(ds, ", ")+"}: for the topic-ID types where these differ (short, predefined) a successful Unsubscribe removes nothing and the callback keeps being invoked")
+	}()
 	for _, target := range []*ssa.Function{storeFn, deleteFn} {
 		for _, f := range c.repoFuncs("client") {
 			allInstrs(f, func(i ssa.Instruction) {
@@ -597,6 +604,27 @@ func (c *Ctx) checkRouteKeys(r *Report) {
 					}
 				}
 				r.cond(okc, "R2", key, c.instrPos(i), "route = strings.Split(topic name, \"/\")", "the route is not strings.Split(name, \"/\")")
+				// what is split: the name as RESOLVED for every topic-ID type (string name, predefined lookup, short
+				// decoding) - recorded per side and compared below
+				if ok && len(call.Call.Args) > 0 {
+					set := map[string]bool{}
+					for _, o := range c.deepOrigins(call.Call.Args[0], 2) {
+						switch {
+						case o.Kind == "call":
+							set["call:"+o.Callee] = true
+						case len(o.Path) > 0:
+							set["field:"+o.Path[len(o.Path)-1]] = true
+						default:
+							set[o.Kind] = true
+						}
+					}
+					if nameSources[target] == nil {
+						nameSources[target] = map[string]bool{}
+					}
+					for k := range set {
+						nameSources[target][k] = true
+					}
+				}
 				// R3: for delete: precedes Success on every path
 				if target == deleteFn {
 					k3 := fnKey(f) + ":delete-before-success"
@@ -1097,6 +1125,74 @@ func checkC33(c *Ctx, r *Report) {
 		}
 	}
 	r.cond(okN, "R2", "state-writes-notify", "-", fmt.Sprintf("all %d state writes go through a function that notifies the loop", len(setSites)), detail)
+	// ... and the converse: the loop is only ever told of states the client really entered. Every value sent on the
+	// notification channel is the value handed to ClientState.Set in the same function - or the function's own
+	// parameter, and then every caller hands Set and the notifier the same value. (A "pause the ticker" notification
+	// without a state change leaves an active client without keep-alive when the announced change does not happen.)
+	{
+		isStateChan := func(v ssa.Value) bool {
+			ch, ok := v.Type().Underlying().(*types.Chan)
+			return ok && typeIs(ch.Elem(), pkUtil, "ClientState")
+		}
+		setsSame := func(g *ssa.Function, v ssa.Value) bool {
+			found := false
+			allInstrs(g, func(i ssa.Instruction) {
+				if ci, ok := i.(ssa.CallInstruction); ok && calleeName(ci.Common()) == "(*"+pkUtil+".ClientState).Set" && len(ci.Common().Args) == 2 && ci.Common().Args[1] == v {
+					found = true
+				}
+			})
+			return found
+		}
+		nSend, badN := 0, ""
+		for _, f := range c.repoFuncs("client") {
+			allInstrs(f, func(i ssa.Instruction) {
+				var sent ssa.Value
+				switch x := i.(type) {
+				case *ssa.Send:
+					if isStateChan(x.Chan) {
+						sent = x.X
+					}
+				case *ssa.Select:
+					for _, st := range x.States {
+						if st.Dir == types.SendOnly && isStateChan(st.Chan) {
+							sent = st.Send
+						}
+					}
+				}
+				if sent == nil {
+					return
+				}
+				nSend++
+				if p, ok := sent.(*ssa.Parameter); ok && p.Parent() == f {
+					idx := -1
+					for k, q := range f.Params {
+						if q == p {
+							idx = k
+						}
+					}
+					for _, g := range c.repoFuncs("client") {
+						allInstrs(g, func(j ssa.Instruction) {
+							cj, ok := j.(ssa.CallInstruction)
+							if !ok || staticCallee(cj.Common()) != f || idx < 0 || idx >= len(cj.Common().Args) {
+								return
+							}
+							if !setsSame(g, cj.Common().Args[idx]) {
+								badN = c.instrPos(j) + ": " + fnKey(g) + " notifies the keep-alive loop of a state it does not set"
+							}
+						})
+					}
+				} else if !setsSame(f, sent) {
+					badN = c.instrPos(i) + ": " + fnKey(f) + " sends a state on the notification channel that it does not set"
+				}
+			})
+		}
+		if nSend == 0 {
+			r.undecided("R2", "notifications-are-state-changes", "-", "no send on a channel of client states found")
+		} else {
+			r.cond(badN == "", "R2", "notifications-are-state-changes", "-", fmt.Sprintf("%d send site(s): the value sent is the value just handed to ClientState.Set", nSend),
+				"the keep-alive loop is told of a state change that did not happen ("+badN+"): it stops (or starts) its ticker for a state the client is not in - e.g. an active client whose Sleep() failed is left without keep-alive PINGREQs")
+		}
+	}
 	// R3: keep-alive PINGREQ (re)transmissions gated by state == Active
 	if pingFn != nil {
 		r.fn(pingFn)
